@@ -47,8 +47,49 @@ fn run_variant(len: usize, idx: u64, flags: u64) -> Result<u64, (String, String)
     Ok(steps)
 }
 
+/// Peek variant: a front end that reads the observer between steps with the non-draining `get_mem_accesses` (step_in clears the
+/// observer itself): after every step each address the step accessed carries exactly its flags, and every address the previous
+/// step accessed but this one did not is back to empty.
+/// self-referential words: loads/stores/branches whose data or target address is the instruction itself or its neighbour, so that the
+/// last access of one step and the fetch of the next hit the same word
+const SELFREF: [u16; 12] = [0x2000, 0x21FF, 0x3000, 0x31FF, 0xA000, 0xB1FF, 0x0FFF, 0x0E00, 0xE200, 0x6040, 0x7040, 0x1021];
+fn selfref_machine(len: usize, mut idx: u64, flags: u64) -> (Machine, Vec<u16>) {
+    let (mut m, _) = program_machine(0, 0, flags);
+    m.regs[0] = 0x1021; m.regs[1] = 0x3001;
+    let mut words = vec![];
+    for _ in 0..len { words.push(SELFREF[(idx % 12) as usize]); idx /= 12; }
+    for (k, w) in words.iter().enumerate() { m.pokes.push((0x3000 + k as u16, *w)); }
+    (m, words)
+}
+fn peek_variant(len: usize, idx: u64, flags: u64) -> Result<u64, (String, String)> { peek_on(program_machine(len, idx, flags)) }
+fn peek_selfref(len: usize, idx: u64, flags: u64) -> Result<u64, (String, String)> { peek_on(selfref_machine(len, idx, flags)) }
+fn peek_on((m, words): (Machine, Vec<u16>)) -> Result<u64, (String, String)> {
+    let flags = (m.real_traps as u64) | (m.ignore_priv as u64) << 1;
+    let mut p = build(&m);
+    let mut prev: Vec<u16> = vec![];
+    let mut steps = 0u64;
+    for _ in 0..HORIZON {
+        let info = step_compare(&mut p, false)?;
+        steps += 1;
+        let mut exp: BTreeMap<u16, (bool, bool, bool)> = BTreeMap::new();
+        for a in &p.rf.log { let e = exp.entry(a.addr).or_default(); if a.write { e.1 = true; if a.changed { e.2 = true; } } else { e.0 = true; } }
+        let ctx = format!("program {words:x?} flags {flags}, step {steps} (observer read with get_mem_accesses, not drained between steps)");
+        for (a, e) in &exp {
+            if *a >= 0xFE00 { continue; }
+            let g = p.sim.observer.get_mem_accesses(*a);
+            if g.read() != e.0 { return Err(("observer:peek:read".into(), format!("{ctx}: x{a:04X} marked read={}, the step read it: {}", g.read(), e.0))); }
+            if g.written() != e.1 { return Err(("observer:peek:written".into(), format!("{ctx}: x{a:04X} marked written={}, the step wrote it: {}", g.written(), e.1))); }
+            if e.2 && !g.modified() { return Err(("observer:peek:modified-missing".into(), format!("{ctx}: x{a:04X} changed value but is not marked modified"))); }
+        }
+        for a in &prev { if *a < 0xFE00 && !exp.contains_key(a) && p.sim.observer.get_mem_accesses(*a).accessed() { return Err(("observer:peek:stale".into(), format!("{ctx}: x{a:04X} was accessed by the previous step only but is still marked {:?}", p.sim.observer.get_mem_accesses(*a)))); } }
+        prev = exp.keys().copied().collect();
+        if matches!(info.outcome, Outcome::Halt | Outcome::Err(_)) || p.rf.saw_user_rti { break; }
+    }
+    Ok(steps)
+}
+
 pub fn run(ctx: &Ctx) -> Report {
-    let mut rep = Report::new("same exploration as C08-S1 (every word x machine contexts, one step + the following fetch) and C08-S2 (all programs of <=2 (3) instructions over the 40-word alphabet, per step_in) with the AccessObserver compared after every step against RefLC3's ordered access log: read/written sets equal on non-I/O addresses, no I/O address marked written that the instruction did not write, modified subset of written and superset of value-changing writes; plus the same programs under run_with_limit (observer accumulates over the run) and host accesses through omnipotent()/track_access:false contexts leave the observer empty. non-trivial = steps that access data memory");
+    let mut rep = Report::new("same exploration as C08-S1 (every word x machine contexts, one step + the following fetch) and C08-S2 (all programs of <=2 (3) instructions over the 40-word alphabet, per step_in) with the AccessObserver compared after every step against RefLC3's ordered access log: read/written sets equal on non-I/O addresses, no I/O address marked written that the instruction did not write, modified subset of written and superset of value-changing writes; plus the same programs stepped with the observer only peeked (get_mem_accesses, never drained: consecutive executions whose last and first access hit the same address) (also every program of <=3 self-referential words: loads, stores and branches aimed at the instruction itself or its neighbour) and under run_with_limit (observer accumulates over the run) and host accesses through omnipotent()/track_access:false contexts leave the observer empty. non-trivial = steps that access data memory");
     let nctx = context_count(ctx.thorough());
     let wstride = ctx.pick(1u64, 1u64);
     let r = sweep(ctx, nctx * 65536 / wstride, 1024, |k, acc| {
@@ -65,13 +106,25 @@ pub fn run(ctx: &Ctx) -> Report {
     let maxlen = ctx.pick(2usize, 3usize);
     for len in 1..=maxlen {
         let n = 40u64.pow(len as u32);
-        let r = sweep(ctx, n * 4 * 2, 16, |k, acc| {
-            let (idx, flags, variant) = (k / 8, k / 2 % 4, k % 2);
+        let r = sweep(ctx, n * 4 * 3, 16, |k, acc| {
+            let (idx, flags, variant) = (k / 12, k / 3 % 4, k % 3);
             acc.evals += 1;
-            let res = if variant == 0 { acc.count("s2_step_programs", 1); s2(len, idx, flags, true).map(|x| x.0) } else { acc.count("s2_run_programs", 1); run_variant(len, idx, flags) };
+            let res = if variant == 0 { acc.count("s2_step_programs", 1); s2(len, idx, flags, true).map(|x| x.0) } else if variant == 1 { acc.count("s2_run_programs", 1); run_variant(len, idx, flags) } else { acc.count("s2_peek_programs", 1); peek_variant(len, idx, flags) };
             match res {
                 Ok(steps) => { acc.transitions += steps; acc.traces += 1; acc.nontrivial += 1; }
                 Err((sig, d)) => if sig.starts_with("observer") || sig.starts_with("panic") { acc.violation(sig, format!("s2:{len}:{idx}:{flags}:{variant}"), d) },
+            }
+        });
+        rep.absorb(r);
+    }
+    for len in 1..=3usize {
+        let n = 12u64.pow(len as u32);
+        let r = sweep(ctx, n * 4, 16, |k, acc| {
+            let (idx, flags) = (k / 4, k % 4);
+            acc.evals += 1; acc.count("selfref_peek_programs", 1);
+            match peek_selfref(len, idx, flags) {
+                Ok(steps) => { acc.transitions += steps; acc.traces += 1; acc.nontrivial += 1; }
+                Err((sig, d)) => if sig.starts_with("observer") || sig.starts_with("panic") { acc.violation(sig, format!("sr:{len}:{idx}:{flags}"), d) },
             }
         });
         rep.absorb(r);
@@ -86,7 +139,8 @@ pub fn replay(case: &str) -> Option<String> {
     let n = |i: usize| -> Option<u64> { p.get(i)?.parse().ok() };
     let r = match *p.first()? {
         "s1" => s1(n(1)?, n(2)? as u16, true).map(|_| ()),
-        "s2" => if n(4)? == 0 { s2(n(1)? as usize, n(2)?, n(3)?, true).map(|_| ()) } else { run_variant(n(1)? as usize, n(2)?, n(3)?).map(|_| ()) },
+        "s2" => match n(4)? { 0 => s2(n(1)? as usize, n(2)?, n(3)?, true).map(|_| ()), 1 => run_variant(n(1)? as usize, n(2)?, n(3)?).map(|_| ()), _ => peek_variant(n(1)? as usize, n(2)?, n(3)?).map(|_| ()) },
+        "sr" => peek_selfref(n(1)? as usize, n(2)?, n(3)?).map(|_| ()),
         _ => return None,
     };
     r.err().filter(|(s, _)| s.starts_with("observer") || s.starts_with("panic")).map(|(s, d)| format!("[{s}] {d}"))
